@@ -132,18 +132,15 @@ def add_parameters_contract():
         W.facts, W.names_of = facts, names_of
 
         def inv(I2, loc, seen):
-            return facts(loc["endpoint"], loc["unique_parameters"].term, z3.Length(seen))
+            # `endpoint` is the parameter name (interface); the set is the one the function made, whatever it is called
+            return facts(loc["endpoint"], uniq.term, z3.Length(seen))
 
         def havoc_endpoint(I2, cur):
             for l in LOCS:
                 cur.fields[f"{l}_parameters"].names = I2.fresh(f"names_{l}", z3.SetSort(S))
             return cur
 
-        def havoc_uniq(I2, cur):
-            cur.term = I2.fresh("unique", z3.SetSort(W.LN))
-            return cur
-        I.loop_specs[(Q, 0)] = LoopSpec(inv, {"endpoint": havoc_endpoint, "unique_parameters": havoc_uniq,
-                                              "schemas": lambda I2: SOpaque("schemas''")})
+        I.loop_specs[(Q, 0)] = LoopSpec(inv, {"endpoint": havoc_endpoint, "schemas": lambda I2: SOpaque("schemas''")})
         kw = dict(endpoint=endpoint, data=data, schemas=SOpaque("schemas"), parameters=SOpaque("parameters"),
                   config=SOpaque("config"))
         return SFunc("pyfunc", M.Endpoint.add_parameters), [], kw, {"W": W, "endpoint": endpoint, "lists0": lists0, "holder": holder,
